@@ -533,6 +533,10 @@ def run(ctx):
             ctx.violation("build:" + cfg, "# property C07: the page-rounded configuration %s could not be built\n" % cfg, False, str(e)[:300])
             continue
         bops = [o for o in corpus() if o.startswith("blob ")] + blob_ops(ctx.rng, ctx.tier)
+        if cfg == "asan-plain-dbg":
+            # the high-level and core families once more WITHOUT the hook (ASan + ASSERTs, page-rounded blobs):
+            # anything that only goes wrong in the shipped blob configuration
+            bops = bops + hl_ops() + core_ops()
         if driver_ok:
             probs, st = run_cfg(ctx, exe_p, "PLAIN", bops, cfg)
         else:
@@ -542,6 +546,7 @@ def run(ctx):
         CFGS["PLAIN:" + cfg] = cfg
         if cfg == "rel-plain":
             # memcheck on the shipped build: printing an uninitialised octet of a blob is reported
+            bops = [o for o in bops if o.startswith("blob ")]
             vg_plain = valgrind_run(ctx, exe_p, bops if ctx.tier == "thorough" else bops[:250], "plain")
             ctx.cov["valgrind_blob_ops_plain"] = len(bops) if ctx.tier == "thorough" else min(250, len(bops))
     # valgrind (release build, 64-bit words): quick = subset, thorough = everything but the slow ecp/hl sweeps twice
